@@ -52,6 +52,16 @@ class Obs:
         return ["exc", type(self.exc).__name__, esc(str(self.exc))[:160]]
 
 
+def soft_attr(obj, name, fallback):
+    """Read an accessor the documentation discourages (`compact`, `length`): a tree may deprecate it formally,
+    and under -W error the DeprecationWarning then arrives as an exception - that is not a verdict on anything,
+    the fallback (what the accessor is documented to equal) is used instead."""
+    try:
+        return getattr(obj, name)
+    except DeprecationWarning:
+        return fallback
+
+
 def observe(fn, *a, **kw) -> Obs:
     try:
         return Obs(True, fn(*a, **kw))
